@@ -272,17 +272,8 @@ theorem with_intercept (F : ℕ → ℕ → ℕ → ℚ) (n : ℕ) : simulate F 
 
 /-- `np.kron` index law: `kron(A,B)[i·r₂+j, a·c₂+b] = A[i,a]·B[j,b]`. -/
 theorem kron_index (r₂ c₂ : ℕ) (A B : ℕ → ℕ → ℚ) (i j a b : ℕ) (hj : j < r₂) (hb : b < c₂) :
-    kron r₂ c₂ A B (i * r₂ + j) (a * c₂ + b) = A i a * B j b := by
-  unfold kron
-  have h1 : (i * r₂ + j) / r₂ = i := by
-    rw [Nat.add_comm, Nat.add_mul_div_right _ _ (by omega), Nat.div_eq_of_lt hj]; simp
-  have h2 : (i * r₂ + j) % r₂ = j := by
-    rw [Nat.add_comm, Nat.add_mul_mod_self_right, Nat.mod_eq_of_lt hj]
-  have h3 : (a * c₂ + b) / c₂ = a := by
-    rw [Nat.add_comm, Nat.add_mul_div_right _ _ (by omega), Nat.div_eq_of_lt hb]; simp
-  have h4 : (a * c₂ + b) % c₂ = b := by
-    rw [Nat.add_comm, Nat.add_mul_mod_self_right, Nat.mod_eq_of_lt hb]
-  rw [h1, h2, h3, h4]
+    kron r₂ c₂ A B (i * r₂ + j) (a * c₂ + b) = A i a * B j b :=
+  FDA.Bases.kron_apply r₂ c₂ A B i j a b hj hb
 
 example : kron 2 3 (fun i a => (i + 2 * a : ℚ)) (fun j b => (j * b + 1 : ℚ)) (1 * 2 + 1) (2 * 3 + 2)
     = ((1 + 2 * 2 : ℕ) : ℚ) * ((1 * 2 + 1 : ℕ) : ℚ) := by
